@@ -81,6 +81,10 @@ OPS = {
         op("branch-len", "fire", [(E, "get_selfies_from_index(len(branch) - 1)", "get_selfies_from_index(len(branch))")], ["R2"]),
         op("double-is-3", "fire", [(S, '":": 1.5, "=": 2, "#": 3}', '":": 1.5, "=": 3, "#": 3}')], ["R3"]),
         op("radix-10", "fire", [(G, "        index //= base", "        index //= 10")], ["R1"]),
+        op("chain-bond-symbol-ignored-between-aromatics", "fire", [(S, "        if prev_atom.is_aromatic and atom.is_aromatic and (bond_char is None):", "        if prev_atom.is_aromatic and atom.is_aromatic and (bond_char != \"=\"):")], ["R6"]),
+        op("ring-opening-symbol-ignored", "fire", [(S, "    if latom.is_aromatic and ratom.is_aromatic and (bonds == (None, None)):", "    if latom.is_aromatic and ratom.is_aromatic and (rbond_char is None):")], ["R6"]),
+        op("ring-implicit-test-spelled-with-is-none", "silent", [(S, "    if latom.is_aromatic and ratom.is_aromatic and (bonds == (None, None)):", "    if latom.is_aromatic and ratom.is_aromatic and lbond_char is None and rbond_char is None:")]),
+        op("memo-reading-table-not-cleared", "fire", [(B, "    get_bonding_capacity.cache_clear()\n", "")], ["R7"]),
     ],
     "C04": [
         op("swap-table-pair", "fire", [(G, "            cache[symbol] = (order, L, (lstereo, rstereo))", "            cache[symbol] = (order, L, (rstereo, lstereo))")], ["S2"]),
